@@ -235,6 +235,9 @@ func NewGen(seed int64, prop string, run int, thorough bool) *Gen {
 			}
 		}
 	}
+	if g.useModSvcCalls && g.mrng.Float64() < 0.4 {
+		cfg.SysPrice = []string{"5stake", "2stake", "100stake", "1stake"}[g.mrng.Intn(4)]
+	}
 	g.useHugeFreq = g.chance(prof.HugeFreq)
 	g.useModule = g.chance(prof.ModuleCtx)
 	g.useExpCont = prof.Faults["expcont"] && g.chance(prof.ExpContRuns)
